@@ -28,8 +28,12 @@ Proof. exact (balance_ok_sections_end _ _ _ _ _ every_section_ends_syntactically
 (** The table is not empty and speaks about the function of this round's
     seeded change (a pin that follows the source: if the function is renamed
     or no longer takes the lock, this line changes with it). *)
+(* (the name is kept here: a string that starts like a comment stops coqdep from
+   reading the Require lines after it in the file that contains it) *)
+Definition clientid_fn_name : string := "(" ++ "*dnsforward.Server).clientIDFromDNSContext".
+
 Example balance_table_covers_clientid_extraction :
-  existsb (fun f => String.eqb (bf_fn f) "(*dnsforward.Server).clientIDFromDNSContext" && is_plain f &&
+  existsb (fun f => String.eqb (bf_fn f) clientid_fn_name && is_plain f &&
                     existsb (fun x => negb (nil_b (be_events x))) (bf_exits f)) balance_fns = true /\
   Nat.leb 20 (List.length balance_fns) = true.
 Proof. vm_compute; split; reflexivity. Qed.
